@@ -166,6 +166,32 @@ func flatGet(vals url.Values) func(key string) any {
 	}
 }
 
+// flatRecordKeys: the resolved keys of the record-typed fields of root (at any depth) and of all other fields.
+func flatRecordKeys(root *Node, tag string) (recs, others []string) {
+	var walk func(n *Node)
+	walk = func(n *Node) {
+		for _, f := range n.Fields {
+			k := fieldKeyFor(f, tag)
+			e := f.N
+			for e.Kind == KPtr {
+				e = e.Elem
+			}
+			if e.Kind == KStruct {
+				if k != "" {
+					recs = append(recs, k)
+				}
+				walk(e)
+			} else if k != "" {
+				others = append(others, k)
+			}
+		}
+	}
+	if root.Kind == KStruct {
+		walk(root)
+	}
+	return
+}
+
 // Render presents the Go-map record `input` (keys already resolved for fe's source tag) through front end fe.
 func Render(fe FrontEnd, root *Node, input any) *Rendered {
 	r := &Rendered{Expressible: true, Cleanup: func() {}}
@@ -225,7 +251,27 @@ func Render(fe FrontEnd, root *Node, input any) *Rendered {
 			r.Expressible, r.Why = false, why
 			return r
 		}
-		enc := vals.Encode()
+		// parameters that name nothing the schema declares — spelled like qualified names of the nested records
+		// ("n.note", "n[note]", and for the environment "N_<sibling key>") — are noise: every flat source carries them
+		recKeys, sibKeys := flatRecordKeys(root, tag)
+		withStrays := url.Values{}
+		for k, l := range vals {
+			withStrays[k] = l
+		}
+		for _, k := range recKeys {
+			if fe != FEEnv {
+				withStrays[k+".zzstray"] = []string{"stray"}
+				withStrays[k+"[zzstray]"] = []string{"stray"}
+			} else {
+				for _, sk := range sibKeys {
+					name := strings.ToUpper(k) + "_" + sk
+					if _, taken := vals[name]; !taken && name != "" && !strings.ContainsAny(name, "=\x00") {
+						withStrays[name] = []string{"stray"}
+					}
+				}
+			}
+		}
+		enc := withStrays.Encode()
 		switch fe {
 		case FEForm:
 			r.Src = &specSrc{flat: true, tag: tag, get: flatGet(vals)}
@@ -245,7 +291,7 @@ func Render(fe FrontEnd, root *Node, input any) *Rendered {
 		case FEEnv:
 			env := map[string]string{}
 			var keys []string
-			for k, l := range vals {
+			for k, l := range withStrays {
 				if len(l) != 1 {
 					r.Expressible, r.Why = false, "a list of several values is not expressible in the environment"
 					return r
